@@ -28,6 +28,8 @@ EXPLANATION = (
     " Added in rounds 6 and 7: The set_property table writes every valid value three ways (plain, blanks before,"
     " blanks after) and reads multi-character item delimiter spellings through the real tokenizer; header, sheet"
     " and item delimiter codes with underscores are refused."
+    " Added in rounds 8 and 9: (O11.5) the consistency matrix is exact: a refusal is accepted only where the csv"
+    " dialect cannot represent the configuration."
 )
 ASSUMPTIONS = ["codecs.lookup decides which encodings the runtime knows", "documented sets are those of docs/writing-an-icd.rst"]
 
